@@ -1,16 +1,45 @@
 #!/usr/bin/env python3
-"""run_seed.py <patch.diff> <Cxx> [more Cyy…] — apply a seeded change to /repo, run the quick checks, undo it.
+"""run_seed.py [--scratch] <patch.diff> <Cxx> [more Cyy…] — apply a seeded change, run the quick checks, undo it.
+Default: the change is applied to /repo itself (and reverted afterwards).  With --scratch the change is applied to a scratch git
+worktree of /repo (/tmp/verif-seedrepo) and the checks are pointed at it (VERIF_REPO / VERIF_HARNESS: a copy of the harness whose
+path dependency is that worktree), so /repo is never touched — use this while anything else reads /repo.
 Prints for each property whether the check raised a VIOLATION (caught) and how."""
-import subprocess, sys, os, json
-patch = os.path.abspath(sys.argv[1]); props = sys.argv[2:]
+import subprocess, sys, os, json, shutil
+args = sys.argv[1:]
+scratch = False
+if args and args[0] == "--scratch":
+    scratch = True
+    args = args[1:]
+patch = os.path.abspath(args[0]); props = args[1:]
 def sh(c, **k): return subprocess.run(c, shell=True, stdout=subprocess.PIPE, stderr=subprocess.STDOUT, text=True, **k)
-assert sh("git -C /repo status --porcelain -- src").stdout.strip() == "", "/repo/src is dirty"
-r = sh("git -C /repo apply %s" % patch)
+env = dict(os.environ)
+repo = "/repo"
+if scratch:
+    repo = "/tmp/verif-seedrepo"
+    hz = "/tmp/verif-seedharness"
+    if not os.path.isdir(repo):
+        r = sh("git -C /repo worktree add --detach %s HEAD" % repo)
+        assert r.returncode == 0, r.stdout
+    else:
+        sh("git -C %s checkout -q --detach %s && git -C %s checkout -- ." % (repo, sh("git -C /repo rev-parse HEAD").stdout.strip(), repo))
+    os.makedirs(hz, exist_ok=True)
+    for item in ("Cargo.toml", "Cargo.lock", "src", ".cargo"):
+        src = os.path.join("/verif/harness", item); dst = os.path.join(hz, item)
+        if os.path.isdir(src):
+            shutil.rmtree(dst, ignore_errors=True); shutil.copytree(src, dst)
+        elif os.path.exists(src):
+            shutil.copy(src, dst)
+    t = open(os.path.join(hz, "Cargo.toml")).read().replace('path = "/repo"', 'path = "%s"' % repo)
+    open(os.path.join(hz, "Cargo.toml"), "w").write(t)
+    env["VERIF_REPO"] = repo
+    env["VERIF_HARNESS"] = hz
+assert sh("git -C %s status --porcelain -- src" % repo).stdout.strip() == "", "%s/src is dirty" % repo
+r = sh("git -C %s apply %s" % (repo, patch))
 if r.returncode: print("patch does not apply:", r.stdout); sys.exit(2)
 out = {}
 try:
     for p in props:
-        r = sh("cd /verif && python3 check.py %s --tier quick" % p)
+        r = sh("cd /verif && python3 check.py %s --tier quick" % p, env=env)
         viol = [l for l in r.stdout.splitlines() if l.startswith("VIOLATION")]
         kinds = []
         for v in viol:
@@ -19,5 +48,5 @@ try:
             except Exception: pass
         out[p] = {"exit": r.returncode, "violations": len(viol), "kinds": kinds, "no_failing_input": any("no-failing-input-found" in v for v in viol), "tail": r.stdout.strip().splitlines()[-1] if r.stdout.strip() else ""}
 finally:
-    sh("git -C /repo checkout -- .")
+    sh("git -C %s checkout -- ." % repo)
 print(json.dumps(out, indent=1))
